@@ -12,6 +12,7 @@ CONFIG = dict(
     kani=[dict(name="c25_map_step", tier="quick"), dict(name="c25_drop_releases_values", tier="quick"),
           dict(name="c25_three_step_histories", tier="quick", bounded="3 operations after any initial map state, two keys"),
           dict(name="c25_dropping_the_coroutine_releases_its_locals", tier="quick"),
+          dict(name="c25_drop_releases_zero_sized_values", tier="quick"),
           dict(name="c25_four_step_histories", tier="thorough", bounded="4 operations after any initial map state, two keys", timeout=2400)],
     functions=["CoroutineLocal::put", "CoroutineLocal::get", "CoroutineLocal::get_mut", "CoroutineLocal::remove",
                "<CoroutineLocal as Drop>::drop", "<Coroutine as Drop>::drop (releases the local storage in every lifecycle state)"],
